@@ -115,7 +115,12 @@ func init() {
 	specs["C05"] = cluSpec(500, 20000, "final-state-verified")
 	specs["C14"] = cluSpec(300, 10000, "final-state-verified")
 	specs["C15"] = cluSpec(400, 15000, "final-state-verified")
-	specs["C16"] = cluSpec(500, 20000, "final-state-verified")
+	c16 := cluSpec(1500, 40000, "final-state-verified", "child-shard-handed-out", "shard-finished", "positions-restored-from-checkpoint")
+	c16.QuickWallS, c16.ThoroughWallS = 150, 3000
+	c16.Real = append(c16.Real, "connectors/kinesis SourceSplitter / SplitTracker / SourceReader + AWS SDK Kinesis client (Kinesis mode, 2 of 3 runs)")
+	c16.Stub = append(c16.Stub, "Kinesis service -> the repository's kinesisfake served in-process (hook K5), seeded PutRecords/SplitShard/MergeShards history; reads paced by a wrapper")
+	c16.Rule += "; in Kinesis mode the input is a seeded reshard history (1-3 initial shards, 0-8 splits/merges, partly applied during the run) and every hand-out of the splitter is checked against the shard lineage and the exact barrier cut of the restored checkpoint"
+	specs["C16"] = c16
 	specs["C20"] = spec{Harness: "H-BATCH", QuickRuns: 30000, QuickWallS: 50, ThoroughRuns: 1500000, ThoroughWallS: 1200, Chunk: 500,
 		MandatoryProbes: []string{"flush-size", "flush-timeout", "flush-explicit", "stale-token", "fetch"},
 		Real:            []string{"batching.EventBatcher", "batching.ReorderFetcher", "batching.ReorderBuffer", "clocks.SystemTimer on the bubble's fake clock"},
